@@ -124,6 +124,9 @@ func c12(r *rep.Run) {
 		keptSnap := make([][]string, len(evented))
 		drive.ForBindings(Doms(p.Vars, true), vals, func() bool {
 			nb++
+			if nb%512 == 0 {
+				r.Note(w, p.Src) // progress within one program (many bindings)
+			}
 			for mode := 0; mode < 3; mode++ { // 0 Eval, 1 TryEval (all available), 2 TryEval (first variable unavailable)
 				if mode == 2 && (len(p.Vars) == 0 || vals[0] == interface{}(ref.ErrFetch)) {
 					continue
